@@ -97,10 +97,12 @@ class ParameterModel(Model):
             This then calls this private ParameterModel method.
 
         """
+        # check all names first, so that a rejected call changes nothing
         for par in pars:
             if par not in self.parameters:
                 raise ValueError('Parameter {} is not defined in model {}'.format(
                         par, self))
+        for par in pars:
             self.parameters_fixed[par] = False
 
     def _fix_parameters(self, *pars: str):
@@ -120,10 +122,12 @@ class ParameterModel(Model):
             for par in self.parameters:
                 self.parameters_fixed[par] = True
         else:
+            # check all names first, so that a rejected call changes nothing
             for par in pars:
                 if par not in self.parameters:
                     raise ValueError('Parameter {} is not defined in model {}'.format(
                             par, self))
+            for par in pars:
                 self.parameters_fixed[par] = True
 
     def free_parameters(self) -> List[str]:
